@@ -47,6 +47,7 @@ print(out)
 rc, out = sh(f"git merge -q --no-edit wip-{k}", "/verif")
 if rc != 0:
     sh("git rm -q -f coq/*.ml coq/*.mli", "/verif")
+    sh("for f in $(git diff --name-only --diff-filter=U | grep '^evidence/'); do git checkout --ours $f; git add $f; done", "/verif")
     rc2, files = sh("git diff --name-only --diff-filter=U", "/verif")
     if files.strip():
         print("VERIF CONFLICT:", files); sys.exit(1)
